@@ -178,6 +178,41 @@ def verify_function(ctx, c, section, only_prop):
     if spec is None and c.mode != "post":
         section["errors"].append("spec function %s of %s missing in the sidecar" % (c.spec, c.qual))
         return
+    keys = ("obligations", "errors", "notes")
+    mark = {k: len(section[k]) for k in keys}
+    ctx.no_closed_form = True
+    _attempt(ctx, c, section, real, spec, t0)
+    bad = [o for o in section["obligations"][mark["obligations"]:] if o["status"] in (C.FAILED, C.UNDECIDED, C.UNREACHABLE)]
+    if bad and c.mode == "equiv" and len(section["errors"]) == mark["errors"]:
+        # second attempt: loops that only build a collection are replaced by a closed form on both sides, so that a loop rewritten as a
+        # comprehension (or split / fused) needs no pairing. Either attempt is a complete proof attempt; the first one's failures are
+        # reported unless the second discharges everything.
+        first = {k: section[k][mark[k]:] for k in keys}
+        pf = section["extra"]["per_function"].get(c.name)
+        for k in keys:
+            del section[k][mark[k]:]
+        ctx.no_closed_form = False
+        try:
+            _attempt(ctx, c, section, real, spec, t0)
+        finally:
+            ctx.no_closed_form = True
+        again = section["obligations"][mark["obligations"]:]
+        if again and all(o["status"] == C.DISCHARGED for o in again) and len(section["errors"]) == mark["errors"]:
+            section["notes"].append("%s: discharged on the second attempt (collection-building loops in closed form); the pairing attempt left %d open"
+                                    % (c.name, len(bad)))
+        else:
+            if os.environ.get("VERIF_CF_DEBUG"):
+                for o in again:
+                    if o["status"] != C.DISCHARGED:
+                        print("CF-ATTEMPT", o["name"], o["status"], (o.get("goal") or "")[:300], (o.get("detail") or "")[:300], file=sys.stderr)
+            for k in keys:
+                del section[k][mark[k]:]
+                section[k].extend(first[k])
+            if pf is not None:
+                section["extra"]["per_function"][c.name] = pf
+
+
+def _attempt(ctx, c, section, real, spec, t0):
     ctx.hidden_state = []
     if c.mode == "post":
         from .postcheck import PostCheck
